@@ -362,6 +362,14 @@ impl Property for C02 {
             Family::fixed("corpus", corpus),
         ]
     }
+    fn fuzz(&self) -> Option<crate::engine::FuzzSpec<Case>> {
+        fn decode(data: &[u8]) -> Option<Case> {
+            let (k, doc) = crate::fuzzrider::split(data)?;
+            let input = String::from_utf8(doc.to_vec()).ok()?;
+            Some(Case { input, cfg: crate::fuzzrider::cfg_table()[k].clone(), rooted: None, namespaced: false, fam: "fuzz".into() })
+        }
+        Some(crate::engine::FuzzSpec { target: "c02_wellformed", secs: 180, decode })
+    }
     fn judge(&self, case: &Case, _strict: bool) -> Verdict {
         let labels = vec![];
         let out = match transform(&case.input, &case.cfg) {
